@@ -87,6 +87,11 @@ CLAIMED = {
    "DESIGN.md §6 C07",
    "round trip sampling with the abstract grammar as oracle; Lean kernel for the proved parts; regenerated meta-grammar.",
    "print/read round trip with random spellings + Lean 4 theorems on unescape / numbers / precedence stage"),
+ "C06": ("other",
+   "A Lean model of validate_ast (is_non_failing, is_non_progressing, validate_repetition / choices / whitespace_comment, left_recursion after the fix, tag checks) is compared with pest_meta's verdict — accepted, or the exact multiset of finding kinds and left-recursive rules — on thousands of near-miss grammars (recursion through every operator, empty strings, non-failing bodies), in two builds; soundness is checked on the implementation by running accepted stack-free grammars in the VM on all short inputs in a child process under a time limit; completeness by requiring strictly guarded grammars to be accepted. The termination theorem (validator_sound over the reference semantics) and validator_complete are being attempted; two genuine soundness gaps were fixed (left recursion behind non-consuming prefixes / through bounded repetitions; tagged expressions unchecked with grammar-extras).",
+   "DESIGN.md §6 C06",
+   "verdict correspondence through the real front-end; termination observed (time limit), not proved, on the implementation.",
+   "Lean 4 validator model + verdict correspondence on near-miss grammars + child-process termination oracle"),
 }
 REASON_TODO = "not claimed yet: machinery for this property is not built in the committed tree (planned in DESIGN.md §6); no check is registered rather than an unsound one"
 
